@@ -32,14 +32,27 @@ impl P {
         }
     }
 
+    /// identifier: `name` or, in span mode, `name@line:cs:ce`
+    fn id(&self, i: &sylt_parser::Identifier) -> String {
+        format!("{}{}", i.name, self.sp(&i.span))
+    }
+
     pub fn ta(&self, t: &TypeAssignable) -> String {
+        let sp = self.sp(&t.span);
         match &t.kind {
-            TAK::Read(i) => format!("(tread {})", i.name),
-            TAK::Access(a, i) => format!("(taccess {} {})", self.ta(a), i.name),
+            TAK::Read(i) => format!("(tread{} {})", sp, self.id(i)),
+            TAK::Access(a, i) => format!("(taccess{} {} {})", sp, self.ta(a), self.id(i)),
         }
     }
 
     pub fn ty(&self, t: &Type) -> String {
+        if self.spans {
+            return format!("(ty{} {})", self.sp(&t.span), self.ty_inner(t));
+        }
+        self.ty_inner(t)
+    }
+
+    fn ty_inner(&self, t: &Type) -> String {
         match &t.kind {
             TK::Implied => "implied".into(),
             TK::Resolved(r) => format!(
@@ -103,12 +116,12 @@ impl P {
     pub fn ass(&self, a: &Assignable) -> String {
         let sp = self.sp(&a.span);
         match &a.kind {
-            AK::Read(i) => format!("(read{} {})", sp, i.name),
+            AK::Read(i) => format!("(read{} {})", sp, self.id(i)),
             AK::Variant { enum_ass, variant, value } => format!(
                 "(variant{} {} {} {})",
                 sp,
                 self.ass(enum_ass),
-                variant.name,
+                self.id(variant),
                 self.expr(value)
             ),
             AK::Call(f, args) => format!(
@@ -124,7 +137,7 @@ impl P {
                 self.ass(f),
                 args.iter().map(|x| format!(" {}", self.expr(x))).collect::<String>()
             ),
-            AK::Access(a, i) => format!("(access{} {} {})", sp, self.ass(a), i.name),
+            AK::Access(a, i) => format!("(access{} {} {})", sp, self.ass(a), self.id(i)),
             AK::Index(a, e) => format!("(index{} {} {})", sp, self.ass(a), self.expr(e)),
             AK::Expression(e) => format!("(aexpr{} {})", sp, self.expr(e)),
         }
@@ -182,9 +195,9 @@ impl P {
                 for b in branches {
                     s.push_str(&format!(
                         " (arm {} {}{})",
-                        b.pattern.name,
+                        self.id(&b.pattern),
                         match &b.variable {
-                            Some(v) => v.name.clone(),
+                            Some(v) => self.id(v),
                             None => "_".into(),
                         },
                         self.body(&b.body)
@@ -202,7 +215,7 @@ impl P {
                 s.push_str(
                     &params
                         .iter()
-                        .map(|(i, t)| format!("(p {} {})", i.name, self.ty(t)))
+                        .map(|(i, t)| format!("(p {} {})", self.id(i), self.ty(t)))
                         .collect::<Vec<_>>()
                         .join(" "),
                 );
@@ -248,21 +261,21 @@ impl P {
             SK::Use { path, name, file } => format!(
                 "(use{} {} {} {})",
                 sp,
-                path.name,
+                self.id(path),
                 match name {
-                    NameIdentifier::Implicit(i) => format!("(implicit {})", i.name),
-                    NameIdentifier::Alias(i) => format!("(alias {})", i.name),
+                    NameIdentifier::Implicit(i) => format!("(implicit {})", self.id(i)),
+                    NameIdentifier::Alias(i) => format!("(alias {})", self.id(i)),
                 },
                 self.file(file)
             ),
             SK::FromUse { path, imports, file } => {
-                let mut o = format!("(fromuse{} {}", sp, path.name);
+                let mut o = format!("(fromuse{} {}", sp, self.id(path));
                 for (i, a) in imports {
                     o.push_str(&format!(
                         " (imp {} {})",
-                        i.name,
+                        self.id(i),
                         match a {
-                            Some(a) => a.name.clone(),
+                            Some(a) => self.id(a),
                             None => "_".into(),
                         }
                     ));
@@ -276,12 +289,12 @@ impl P {
                 let mut o = format!(
                     "(blobdef{} {} {} ({})",
                     sp,
-                    name.name,
+                    self.id(name),
                     if *external { "ext" } else { "int" },
-                    variables.iter().map(|v| v.name.clone()).collect::<Vec<_>>().join(" ")
+                    variables.iter().map(|v| self.id(v)).collect::<Vec<_>>().join(" ")
                 );
                 for (n, t) in fs {
-                    o.push_str(&format!(" (field {} {})", n.name, self.ty(t)));
+                    o.push_str(&format!(" (field {} {})", self.id(n), self.ty(t)));
                 }
                 o.push(')');
                 o
@@ -292,11 +305,11 @@ impl P {
                 let mut o = format!(
                     "(enumdef{} {} ({})",
                     sp,
-                    name.name,
-                    variables.iter().map(|v| v.name.clone()).collect::<Vec<_>>().join(" ")
+                    self.id(name),
+                    variables.iter().map(|v| self.id(v)).collect::<Vec<_>>().join(" ")
                 );
                 for (n, t) in fs {
-                    o.push_str(&format!(" (variant {} {})", n.name, self.ty(t)));
+                    o.push_str(&format!(" (variant {} {})", self.id(n), self.ty(t)));
                 }
                 o.push(')');
                 o
@@ -317,7 +330,7 @@ impl P {
             SK::Definition { ident, kind, ty, value } => format!(
                 "(def{} {} {} {} {})",
                 sp,
-                ident.name,
+                self.id(ident),
                 match kind {
                     VarKind::Const => "const",
                     VarKind::Mutable => "mut",
@@ -328,7 +341,7 @@ impl P {
             SK::ExternalDefinition { ident, kind, ty } => format!(
                 "(extdef{} {} {} {})",
                 sp,
-                ident.name,
+                self.id(ident),
                 match kind {
                     VarKind::Const => "const",
                     VarKind::Mutable => "mut",
@@ -354,6 +367,21 @@ impl P {
             SK::EmptyStatement => format!("(empty{})", sp),
         }
     }
+}
+
+/// whole-program parse (module discovery included): one `(module <file> <file_id> stmts...)` per module
+pub fn tree_dump(tree: &sylt_parser::AST, spans: bool) -> String {
+    let p = P { spans };
+    let mut out = String::new();
+    for (f, m) in tree.modules.iter() {
+        out.push_str(&format!("(module {} {}", p.file(f), m.file_id));
+        for s in m.statements.iter() {
+            out.push(' ');
+            out.push_str(&p.stmt(s));
+        }
+        out.push_str(") ");
+    }
+    out
 }
 
 fn curr_of(ctx: &Context) -> usize {
